@@ -85,9 +85,9 @@ def c10_r2(ctx):
             ctx.viol('%s|%s-not-leader-only' % (f.path, name), f.at, '`%s` in wait_sync_state is not restricted to the local leader (conditions: %s)' % (name, show_dnf(dnf)), None)
         # ... and by nothing else: the leader installs the state and releases the lock after *every* round (the state of the
         # last round is what the loop outputs, and nested loops restart from it)
-        from ..pathcond import simplify
-        dnf = simplify(dnf, merge_enums=True)      # `x is A` | `x is B` over a two-variant enum is no condition at all
-        extra = sorted({q.show_dnf([[a]])[0] for c in dnf for a in c if not (a[0] == 'bool' and 'is_local_leader' in a[1])})
+        leader = lambda a: a[0] == 'bool' and 'is_local_leader' in a[1] and a[2] is True   # noqa: E731
+        uncond = q.covers_all(dnf, ignore=leader)
+        extra = [] if uncond else sorted({q.show_dnf([[a]])[0] for c in dnf for a in c if not leader(a)})
         ctx.inst('wait_sync_state|%s guard' % name, {'conditions': show_dnf(dnf)})
         if extra:
             ctx.viol('%s|%s-conditional' % (f.path, name), f.at,
